@@ -53,6 +53,7 @@ pub struct Sc {
     pub pre: u8,
 }
 
+#[derive(Clone, Copy)]
 pub struct C03;
 
 /// A valid program, repeated to fill a pre-existing output file (its statements would still parse
